@@ -4,41 +4,75 @@ import vf
 
 META = {
     "claimed": True,
-    "text": "TODO",
-    "note": "TODO",
-    "technique": "Coq proof + model/implementation correspondence",
+    "text": ("Coq theorems over a Gallina model of rten-serialize/src/npy.rs (+ npy/dtype.rs): (a) round trip -- for every "
+             "supported dtype, every shape (any rank, 0-d, empty) and every element list of matching length, in release and "
+             "overflow-checked builds, npy::read(npy::write(t)) returns the same dtype, shape and elements, provided the writer "
+             "succeeded (it refuses exactly the headers that do not fit the u16 length field), the data is below the reader's "
+             "4 GiB cap and the product of the non-zero dimensions fits usize; (b) totality -- on ALL byte strings the reader "
+             "terminates (fuel never runs out) and returns a value or an error; the model's Panic outcomes (overflowing usize "
+             "arithmetic in stride/length computations, Tensor::from_data length mismatch, `descr[2..]` off a char boundary) are "
+             "unreachable; accepted files are well-formed; (c) the written header is 64-byte aligned; npz member naming and the "
+             "safetensors dtype map are lossless. The model (header text builder, Python-dict-literal parser, UTF-8 check, descr "
+             "parser, checked size arithmetic, LE/BE codecs, Fortran-order conversion) is tied to the code by comparing, inside "
+             "Coq, written bytes and read outcomes (dtype, shape, element bit patterns, error kind) for round trips over all "
+             "dtypes x shapes x source layouts (contiguous, transposed, strided, broadcast) and for a malformed stream "
+             "(handcrafted header edge cases, every truncation, mutations, random bytes), in release and debug builds. "
+             ".npz and .safetensors are exercised through the public API only (round trips, member names, dtype strings, "
+             "mutated archives must yield Ok/Err)."),
+    "note": ("Trusted: Coq kernel; hand models of core::str::from_utf8, usize::from_str/to_string, io::Read on slices; "
+             "TensorView::iter yielding logical order (C07); Tensor::from_data / reshaped modelled by their stride and length "
+             "arithmetic only; the zip and safetensors crates and their JSON parser (not modelled: partial); the correspondence "
+             "sample (a test, not a proof). Known finding F34.1: tensors of more than u32::MAX bytes are written but cannot be "
+             "read back (allocation cap) -- excluded by hypothesis and reproduced on every run. Finding F34.2 (overflow panic on "
+             "shapes like (0, 2^63, 2^63)) is fixed in the tree the theorems describe."),
+    "technique": "Coq proof (fuel-indexed parser with progress lemmas, N arithmetic, evaluation on the concrete header text) + model/implementation correspondence",
 }
 GROUP = "npy"
-REQ = "From RV Require Import Prelude.\nFrom Npy Require Import Npy.\nOpen Scope N_scope."
-THEOREMS = []
+REQ = "From RV Require Import Prelude.\nFrom Coq Require Import String.\nFrom Npy Require Import Npy.\nOpen Scope N_scope."
+THEOREMS = ["C34_npy_roundtrip", "C34_parse_total", "C34_read_ok_shape", "C34_header_aligned", "C34_write_ok_iff",
+            "C34_npz_name_roundtrip", "C34_st_dtype_roundtrip", "C34_large_tensor_rejected",
+            "C34_roundtrip_refuted_above_4GiB", "C34_prop_ok_sound", "C34_nonvacuous"]
 F_CAP = "F34.1"
 
 
 def classify(case):
-    # the only recorded known finding: tensors of >= 4 GiB cannot be read back (size cap in read_typed)
-    if case["input"].startswith("G|") and "ETooLarge" in case["term"]:
+    # the only recorded known finding: a tensor of more than u32::MAX bytes is rejected by the reader's size cap.
+    # Matched on the specific input class (G| lines: >= 4 GiB tensors) and the specific error.
+    if case["input"].startswith("G|") and "(RErr ETooLarge)" in case["term"]:
         return F_CAP
     return None
 
 
 def main(ctx):
+    ctx.rule = ("round trips: 11 dtypes x 25 shapes (0-d, empty, rank<=4, header-padding boundaries) x 4 source layouts "
+                "(contiguous/transposed/strided/broadcast) through npy (all) and npz/safetensors (a quarter in quick, all in "
+                "thorough) with varied member names; malformed .npy stream: ~700 handcrafted headers (descr, shape, huge "
+                "values, fortran_order, versions 1-3, length field, UTF-8, data length), every truncation of valid files, "
+                "seeded mutations, grammar-alphabet noise and random bytes; mutated/truncated npz and safetensors archives. "
+                "A case is trivial for empty 1-d round trips; distinct = distinct input line")
+    ctx.trusted += ["modelled, not verified: core::str::from_utf8, <usize as FromStr>::from_str, usize::to_string, io::Read for &[u8]/Take, BufWriter",
+                    "rten-tensor: TensorView::iter order (C07), Tensor::from_data / from_vec / reshaped / permuted / to_vec (modelled by their stride and length arithmetic)",
+                    "third-party, not modelled: zip 8.6 (npz archives), safetensors 0.8 + its JSON parser; only exercised through the public API",
+                    "element values are compared as bit patterns (floats never as rounded values)"]
+    ctx.assumptions += ["64-bit little-endian target (usize = u64; '=' byte order means little-endian)",
+                        "round trip: data size <= u32::MAX bytes (known finding F34.1) and product of non-zero dimensions < 2^64"]
     ctx.audit(GROUP)
-    failed = ctx.prove(GROUP, "Props_C34", THEOREMS) if THEOREMS else []
+    failed = ctx.prove(GROUP, "Props_C34", THEOREMS)
     inputs = ctx.replay_inputs()
     for profile in ("release", "debug"):
-        if os.environ.get("C34_ONLY") and profile != os.environ["C34_ONLY"]:
-            continue
         bindir = ctx.harness(GROUP, profile=profile, bins=["c34"], hooks=False)
         if inputs is None:
-            rc, out = vf.sh([os.path.join(bindir, "c34"), "gen", str(ctx.seed), str(ctx.n(800, 40000)), ctx.tier], timeout=600)
+            rc, out = vf.sh([os.path.join(bindir, "c34"), "gen", str(ctx.seed), str(ctx.n(600, 30000)), ctx.tier], timeout=600)
             if rc != 0:
                 raise vf.CheckerBroken("c34 gen failed: " + out[-400:])
             inputs = [l for l in out.split("\n") if l.strip()]
         ins = inputs
         if profile == "debug" and not ctx.replay_path:
-            ins = [l for l in inputs if not l.startswith("G|")]
+            # >= 4 GiB writes take minutes without optimisation; the debug build differs only in overflow
+            # behaviour, which the malformed stream and a third of the round trips cover
+            ins = [l for i, l in enumerate(inputs) if not l.startswith("G|") and (not l.startswith("T|") or i % 3 == 0)]
         cases = ctx.gen_exec(bindir, "c34", 0, inputs=ins)
-        ctx.correspond("npy[%s]" % profile, GROUP, REQ, cases, classify=classify, show="show", shard=250,
+        ctx.correspond("npy[%s]" % profile, GROUP, REQ, cases, classify=classify, show="show", shard=200,
                        fn_name="Npy.read / Npy.write (%s build)" % profile)
     if failed and not ctx.violations:
         ctx.proof_broken(failed, "all correspondence cases of this run")
